@@ -220,6 +220,26 @@ func runC36(c *Ctx) {
 					okPfx = false
 				}
 			}
+			if !(okPfx && nF == 2) {
+				// the flag computed directly: isContract := prefix == "cx", and the call reached only
+				// when the flag is true or the prefix is "hx"
+				if bo, ok := a[0].(*ssa.BinOp); ok && bo.Op == token.EQL {
+					pr := predOfVal(bo, true)
+					if pr.Kind == "same" && pr.Pol && ((pr.A == `"cx"` && pr.B == "$0[0:2]") || (pr.B == `"cx"` && pr.A == "$0[0:2]")) {
+						okAll := true
+						for _, alt := range altGuards(cs.Instr.Block()) {
+							_, isCx := holds(alt, wSame("prefix cx", `^"cx"$`, `^\$0\[0:2\]$`))
+							_, isHx := holds(alt, wSame("prefix hx", `^"hx"$`, `^\$0\[0:2\]$`))
+							if !isCx && !isHx {
+								okAll = false
+							}
+						}
+						if okAll {
+							okPfx, nF = true, 2
+						}
+					}
+				}
+			}
 			c.check(okPfx && nF == 2, "C36.strict-guards", "contract flag true exactly for prefix \"cx\", false exactly for \"hx\"", cs.Pos(), "cx ↔ true, hx ↔ false", "the contract flag is not determined by the prefixes cx / hx")
 			c.requireAtAny("C36.strict-guards", "stored only for prefix cx or hx", cs.Instr, "prefix ∈ {cx, hx}",
 				wSame("prefix cx", `^"cx"$`, `^\$0\[0:2\]$`), wSame("prefix hx", `^"hx"$`, `^\$0\[0:2\]$`))
@@ -428,7 +448,21 @@ func runC36(c *Ctx) {
 			if fn := c.mustFn("server/jsonrpc", "", spec.fn); fn != nil {
 				for _, e := range exitAlts(fn) {
 					r := render(e.Results[0])
-					c.check(strings.Contains(r, "global:"+spec.global+".MatchString($0.Field().String())"), "C36.validator-regex", spec.fn+" decides by the pattern on the whole field", e.pos(), r, spec.fn+" returns "+r)
+					okM := strings.Contains(r, "global:"+spec.global+".MatchString($0.Field().String())")
+					if !okM {
+						// through a shared private helper: helper(pattern, fl) = pattern.MatchString(fl.Field().String())
+						if call, ok := e.Results[0].(*ssa.Call); ok {
+							if h := call.Common().StaticCallee(); h != nil && len(call.Call.Args) == 2 && strings.Contains(render(call.Call.Args[0]), "global:"+spec.global) && render(call.Call.Args[1]) == "$0" {
+								okM = true
+								for _, he := range exitAlts(h) {
+									if render(he.Results[0]) != "$0.MatchString($1.Field().String())" {
+										okM = false
+									}
+								}
+							}
+						}
+					}
+					c.check(okM, "C36.validator-regex", spec.fn+" decides by the pattern on the whole field", e.pos(), r, spec.fn+" returns "+r)
 				}
 			}
 		}
